@@ -108,6 +108,14 @@ ares_bool_t ares_dns_rec_type_isvalid(ares_dns_rec_type_t type,
     default:
       break;
   }
+
+  /* A question may ask for a type we have no name for, as long as it is one:
+   * the wire has 16 bits for it, a larger (or negative) value would be cut
+   * down to the number of some other type when written */
+  if ((unsigned int)type > 65535) {
+    return ARES_FALSE;
+  }
+
   return is_query ? ARES_TRUE : ARES_FALSE;
 }
 
